@@ -29,13 +29,20 @@
     healing after NodeHost crashes and restarts ([Calm] states: no membership change in progress), all
     shards at once, every allowed scheduler outcome: rank decrease per healthy round
     (C01_progress_partial) and healing within ttl / (nticks * step) + 3 healthy rounds
-    (C01_heal_partial); proofs/FleetHealProofs.v.
+    (C01_heal_partial), proofs/FleetHealProofs.v; and healing through the membership-change pipeline
+    ([Mend] / [MendA] states: change applied and Drummer's view behind, joiner not yet created, joiner
+    not yet reported, surplus member, removed member's stray replica running / in the kill list, stale
+    ADD / DELETE / KILL / restore requests in the mailboxes), all shards at once, every allowed
+    scheduler outcome: closure, rank decrease, healing within detect_rounds + 4 resp. + 5 healthy rounds
+    (C01_mend_round, C01_mend_progress, C01_heal_mend, C01_heal_stage_view_behind, C01_heal_menda),
+    proofs/FleetMendProofs.v, FleetMendAProofs.v.
     NOT PROVED (stated below as [C01_progress_full], [C01_heal_full] : Prop, checked on every run by
-    the closed-loop correspondence, harness/py/c01.py): the same from every LoopInv state with all
-    hosts up - membership change in progress, stale ADD / DELETE / KILL requests, stray replicas. *)
+    the closed-loop correspondence, harness/py/c01.py): the same from EVERY LoopInv state with all
+    hosts up - in particular the round in which an ADD / DELETE with a current fence is applied, and
+    more than one membership change in progress in a shard. *)
 From stdpp Require Import gmap.
 From Drummer.Model Require Import DB Sched Fleet FleetRun FleetExample FleetRounds.
-From Drummer.Proofs Require Import DBTimeProofs FleetProofs FleetLiveProofs FleetHealProofs.
+From Drummer.Proofs Require Import DBTimeProofs FleetProofs FleetLiveProofs FleetHealProofs FleetMendProofs FleetMendAProofs.
 Local Open Scope N_scope.
 
 (** * (i) the invariant of all executions *)
@@ -256,6 +263,100 @@ Theorem C01_calm_checked : forall st, LoopInv st -> calm_restb st = true -> Calm
 Proof. exact calm_restb_sound. Qed.
 Print Assumptions C01_calm_checked.
 
+(** ** the membership-change pipeline (FleetMendProofs.v, FleetMendAProofs.v)
+    A strictly larger class than Calm.
+    [Mend]: as Calm (invariant, all NodeHosts up, Drummer's view at the current membership version, every member that
+    has reported has its data), except that
+      - a shard may have a JOINER - a current member, added by a completed ADD, that Drummer's view shows as "waiting
+        to be started": it has never reported.  It may not exist on its NodeHost yet (stage "view current, joiner not
+        yet created") or exist, run and not have reported (stage "joiner created, not yet reported"); at most one
+        joiner per shard; the shard may carry one surplus member (stage "surplus member not yet deleted": nothing is
+        deleted while every member's NodeHost is up and has the member's data - the failed member is restored);
+      - STRAY replicas may run - replicas of removed members that have not learned of their removal (the replica knows
+        less than the current membership version, no current member of the shard lives on its NodeHost) - and the
+        kill list may be non-empty (stage "stray replica of the removed member still running / in the kill list");
+      - the mailboxes (Requests, Outgoing, NodeHost queues) may hold, in any number: restores for current members,
+        join-CREATEs for current members on their NodeHost, ADD / DELETE with a stale fence, KILLs of non-members, and
+        restores for REMOVED members (executed, they restart the removed replica: a stray).
+    [MendA]: as Mend, except that in some shards a membership change has only just been applied (stages "ADD applied,
+    Drummer's view behind" and "DELETE applied, Drummer's view behind"): the membership is (v+1, M + x) resp.
+    (v+1, M - x), the view still shows (v, M), every member of M has reported, an added replica x runs nowhere (a
+    removed one may still run), and some running replica - the proposer of the change - knows v+1.
+    Calm ⊆ Mend ⊆ MendA.  From these states, for ALL shards at once and EVERY outcome the scheduler model allows:
+      - one healthy round keeps the fleet in Mend, resp. takes it from MendA to Mend: the report phase brings the
+        view up to date (an added x becomes a waiting joiner, a removed x leaves the view); the scheduler can only
+        answer with a batch of restore, join-CREATE and KILL requests (no ADD, no DELETE, no errNotEnoughNodeHost,
+        no panic); running members keep running ([C01_mend_round], [C01_heal_stage_view_behind]);
+      - a rank strictly decreases in every healthy round from Mend while the fleet is not healed ([C01_mend_progress]);
+      - after detect_rounds + 4 healthy rounds from Mend, resp. detect_rounds + 5 from MendA, the fleet is healed and
+        stays healed ([C01_heal_mend], [C01_heal_menda]); detect_rounds = ttl / (nticks * step) + 1.
+    No fleet-size premise is needed: nothing is added from these states (no errNotEnoughNodeHost is possible).
+    Which theorem covers which stage of the pipeline:
+      ADD applied, view behind / DELETE applied, view behind ........ C01_heal_stage_view_behind, C01_heal_menda
+      view current, joiner not yet created / created, not reported .. C01_mend_round, C01_mend_progress, C01_heal_mend
+      surplus member; stray replica running / in the kill list;
+      stale ADD / DELETE / KILL / restore leftovers ................. the same three (they are part of Mend)
+    Stages that remain OPEN (part of [C01_heal_full]): an ADD / DELETE request with a CURRENT fence in a mailbox - the
+    round in which the change is applied (the membership history changes in the middle of the round and the leader
+    schedules from a view that is behind; this is where [C01_no_error_round] and its [spare] premise are needed) -,
+    more than one membership change in progress in one shard, members without data. *)
+
+Theorem C01_calm_mend : forall st, Calm st -> Mend st.
+Proof. exact calm_mend. Qed.
+Print Assumptions C01_calm_mend.
+
+Theorem C01_mend_menda : forall st, Mend st -> MendA st.
+Proof. exact mend_menda. Qed.
+Print Assumptions C01_mend_menda.
+
+Theorem C01_mend_round : forall (P : params) (st st' : fstate) (plogs : N -> bool) (nticks : nat) (o : outcome),
+  Mend st -> (forall a, plogs a = true) -> N.of_nat nticks * p_step P <= p_ttl P ->
+  healthy_round P plogs nticks o st = Some st' ->
+  exists b, o = OBatch b /\ add_ids b = [] /\ Mend st' /\ f_hist st' = f_hist st /\
+    (forall a s rid, member st s rid a -> member_running (f_hosts st) s rid a = true -> member_running (f_hosts st') s rid a = true).
+Proof. exact mend_round_short. Qed.
+Print Assumptions C01_mend_round.
+
+Theorem C01_mend_progress : forall (P : params) (st st' : fstate) (plogs : N -> bool) (nticks : nat) (o : outcome),
+  Mend st -> (forall a, plogs a = true) -> (0 < nticks)%nat -> 0 < p_step P -> N.of_nat nticks * p_step P <= p_ttl P ->
+  healed P st = false -> healthy_round P plogs nticks o st = Some st' ->
+  (mend_rank P st' < mend_rank P st)%nat.
+Proof. exact mend_progress. Qed.
+Print Assumptions C01_mend_progress.
+
+Theorem C01_heal_mend : forall (P : params) (plogs : N -> bool) (nticks : nat) (os : list outcome) (st st' : fstate),
+  (forall a, plogs a = true) -> N.of_nat nticks * p_step P <= p_ttl P ->
+  Mend st -> (0 < nticks)%nat -> 0 < p_step P ->
+  (detect_rounds P nticks + 4 <= length os)%nat ->
+  healthy_rounds P plogs nticks os st = Some st' ->
+  Mend st' /\ healed P st' = true.
+Proof. intros P plogs nticks os st st' Hpl Httl. by apply mend_heal_ge. Qed.
+Print Assumptions C01_heal_mend.
+
+(* stages "ADD applied / DELETE applied, Drummer's view behind": one healthy round ends in Mend *)
+Theorem C01_heal_stage_view_behind : forall (P : params) (st st' : fstate) (plogs : N -> bool) (nticks : nat) (o : outcome),
+  MendA st -> (forall a, plogs a = true) -> N.of_nat nticks * p_step P <= p_ttl P ->
+  healthy_round P plogs nticks o st = Some st' ->
+  exists b, o = OBatch b /\ add_ids b = [] /\ Mend st' /\ f_hist st' = f_hist st.
+Proof. exact menda_round. Qed.
+Print Assumptions C01_heal_stage_view_behind.
+
+Theorem C01_heal_menda : forall (P : params) (os : list outcome) (st st' : fstate) (plogs : N -> bool) (nticks : nat),
+  MendA st -> (forall a, plogs a = true) -> N.of_nat nticks * p_step P <= p_ttl P -> (0 < nticks)%nat -> 0 < p_step P ->
+  (detect_rounds P nticks + 5 <= length os)%nat ->
+  healthy_rounds P plogs nticks os st = Some st' ->
+  Mend st' /\ healed P st' = true.
+Proof. exact menda_heal. Qed.
+Print Assumptions C01_heal_menda.
+
+Theorem C01_mend_checked : forall st, LoopInv st -> mend_restb st = true -> Mend st.
+Proof. exact mend_restb_sound. Qed.
+Print Assumptions C01_mend_checked.
+
+Theorem C01_menda_checked : forall st, LoopInv st -> menda_restb st = true -> MendA st.
+Proof. exact menda_restb_sound. Qed.
+Print Assumptions C01_menda_checked.
+
 (** ** errNotEnoughNodeHost: cause and exclusion, from ANY state of the invariant *)
 (* the cause (decision level, any context): a view entry in the ADD branch of the repair chain has a failed member
    for which NO live NodeHost (reported less than ttl ago) is free of the shard; Drummer then drops the WHOLE
@@ -462,3 +563,108 @@ Proof.
   intros s Hs. apply elem_of_dom in Hs. rewrite Hdom in Hs. apply elem_of_singleton in Hs as ->.
   exists 4. by apply spareb_sound.
 Qed.
+
+(** ** non-vacuity of the pipeline theorems: the state right after an ADD was applied for a really failed member *)
+(* the final state of the logged run (NodeHost 1 crashed, stayed down beyond the failure timeout, Drummer ADDed a
+   replacement on NodeHost 4, the ADD was applied: membership version 2, Drummer's view at version 1), then NodeHost 1
+   restarts: the state is in MendA (decidable part) and not in Mend; after ONE healthy round with the scheduler's
+   canonical outcome it is in Mend - the replacement is a waiting joiner - and not Calm, not healed *)
+Definition ex_added : option fstate :=
+  match ex_final with Some st0 => steps ex_params st0 [ERestart 1] | None => None end.
+
+Example C01_menda_computed :
+  match ex_added with
+  | Some st =>
+    menda_restb st && negb (mend_restb st) &&
+    match canon_run ex_params (fun _ => true) 2 (fun i _ => 1000 + N.of_nat i) 1 st with
+    | Some (os, st') => mend_restb st' && negb (calm_restb st') && negb (healed ex_params st')
+    | None => false
+    end
+  | None => false
+  end = true.
+Proof. vm_compute. reflexivity. Qed.
+
+(* ... and the bound of C01_heal_menda: detect_rounds + 5 rounds (with the scheduler's canonical outcomes) end healed *)
+Example C01_menda_heal_computed :
+  match ex_added with
+  | Some st =>
+    match canon_run ex_params (fun _ => true) 2 (fun i _ => 1000 + N.of_nat i) (detect_rounds ex_params 2 + 5) st with
+    | Some (os, st') =>
+      bool_decide (healthy_rounds ex_params (fun _ => true) 2 os st = Some st')
+      && healed ex_params st' && mend_restb st'
+    | None => false
+    end
+  | None => false
+  end = true.
+Proof. vm_compute. reflexivity. Qed.
+
+(* the DELETE half of the pipeline, with a stray replica.  The logged run continues with healthy rounds (the
+   scheduler's canonical outcomes, NodeHost 1 still down): the joiner 105 is created and reports, the dead member 1 is
+   DELETEd (current fence).  While the DELETE request waits in the mailbox NodeHost 1 restarts (that state is in the
+   OPEN stage); in the next round the DELETE is applied and the leader, whose view is behind, sends a restore request
+   for the removed replica 1 to NodeHost 1.  That is [ex_deleted]: in MendA (DELETE applied, view behind, restore
+   request for a removed member in the mailbox), not in Mend.  One healthy round later the view is current and the
+   removed replica RUNS - a stray (Mend, not Calm); in the next round it is in the kill list and a KILL request is
+   out; in the next the replica is gone. *)
+Definition ex_deleted : option fstate :=
+  match ex_final with
+  | Some st0 =>
+    match canon_run ex_params (fun _ => true) 2 (fun i _ => 1000 + N.of_nat i) 3 st0 with
+    | Some (_, st1) =>
+      match steps ex_params st1 [ERestart 1] with
+      | Some st2 =>
+        match canon_run ex_params (fun _ => true) 2 (fun i _ => 2000 + N.of_nat i) 1 st2 with
+        | Some (_, st) => Some st
+        | None => None
+        end
+      | None => None
+      end
+    | None => None
+    end
+  | None => None
+  end.
+
+(* some running replica is not a current member *)
+Definition stray_runs (st : fstate) : bool :=
+  existsb (fun ah : N * fhost =>
+             existsb (fun kl : N * N * lrep => lr_running kl.2 && negb (is_member (cur_members (hist_of (f_hist st) kl.1.1)) kl.1.2))
+                     (map_to_list (fh_reps ah.2)))
+          (map_to_list (f_hosts st)).
+Definition one_round (st : fstate) : option fstate :=
+  match canon_run ex_params (fun _ => true) 2 (fun i _ => 3000 + N.of_nat i) 1 st with Some (_, st') => Some st' | None => None end.
+
+Example C01_stray_computed :
+  match ex_deleted with
+  | Some st =>
+    menda_restb st && negb (mend_restb st) && negb (stray_runs st) &&
+    match one_round st with
+    | Some st1 =>
+      mend_restb st1 && negb (calm_restb st1) && stray_runs st1 && bool_decide (d_kill (f_db st1) = []) &&
+      match one_round st1 with
+      | Some st2 =>
+        mend_restb st2 && stray_runs st2 && negb (bool_decide (d_kill (f_db st2) = [])) &&
+        match one_round st2 with
+        | Some st3 => mend_restb st3 && negb (stray_runs st3) && healed ex_params st3
+        | None => false
+        end
+      | None => false
+      end
+    | None => false
+    end
+  | None => false
+  end = true.
+Proof. vm_compute. reflexivity. Qed.
+
+(* ... and the bound of C01_heal_menda from that state *)
+Example C01_stray_heal_computed :
+  match ex_deleted with
+  | Some st =>
+    match canon_run ex_params (fun _ => true) 2 (fun i _ => 3000 + N.of_nat i) (detect_rounds ex_params 2 + 5) st with
+    | Some (os, st') =>
+      bool_decide (healthy_rounds ex_params (fun _ => true) 2 os st = Some st')
+      && healed ex_params st' && mend_restb st' && calm_restb st' && negb (stray_runs st')
+    | None => false
+    end
+  | None => false
+  end = true.
+Proof. vm_compute. reflexivity. Qed.
